@@ -45,6 +45,8 @@ def serde_stage(prop, tier, name):
             if not ev["same_result"]: why.append("the result (error) differs from serialising the value itself")
             if ev["count_after"] != ev["count_before"]: why.append("the count changed from %s to %s" % (ev["count_before"], ev["count_after"]))
             if ev["live_delta"] or ev["leaked"]: why.append("an allocation was made or left behind")
+        elif ev["op"] == "bound":
+            why.append("the payload %s Deserialize<'static> but the handle %s" % ("is" if ev["payload_is"] else "is not", "is" if ev["handle_is"] else "is not"))
         elif ev["op"] == "de_in_place":
             if not ev["agree"]: why.append("outcome differs from the value's own deserialiser (Ok vs Err, or a different error)")
             if ev["ok"] and (ev["count"] != 1 or not ev["moved"]): why.append("the handle is not a fresh sole owner afterwards (count %s, %s block)" % (ev["count"], "new" if ev["moved"] else "same"))
